@@ -3,7 +3,8 @@
    with duplicates:
      <<"B", h, 0>>  the block of height h of a valid linear segment 1..NB (on top of the genesis block),
      <<"C", h, d>>  a confirm packet: deputy d's signature for block h,
-     <<"T", 0, 0>>  one batch of NT valid transactions.
+     <<"T", 0, 0>>  one batch of NT valid transactions, none of them in a block (batches that mix transactions of every
+                    status - executed, side-fork, pending, refused, boxes - around the blocks that package them: SyncTx.tla).
    Every Deliver(m) is the complete handling of one message by the network layer (network/
    protocol_manager.go: handleBlocksMsg + rcvBlockLoop, handleConfirmMsg, handleTxsMsg + its goroutines),
    TimerDrain is one effective firing of rcvBlockLoop's 500 ms queue timer: every cached block whose parent
